@@ -416,6 +416,15 @@ def go_run_own(ctx, binary, lines, tag, timeout=3000):
     except subprocess.TimeoutExpired:
         crash = "timeout"
     res = open(outp).read().splitlines() if os.path.exists(outp) else []
+    if os.path.exists(outp + ".hang"):
+        # a scenario hit the in-harness watchdog: keep the goroutine dump for diagnosis (never a verdict)
+        try:
+            dump = open(outp + ".hang").read()
+            keep = [b for b in dump.split("\n\n") if "centrifuge" in b and ("vsp" in b or "(*Client)" in b)]
+            ctx.extra.setdefault("hang_dumps", []).append("\n\n".join(keep)[:6000])
+            os.remove(outp + ".hang")
+        except OSError:
+            pass
     for f in (ops, outp):
         try:
             os.remove(f)
